@@ -13,12 +13,55 @@ class Walk:
         self.ok = self.body is not None
         if not self.ok:
             return
+        self.entry = self.body
+        self.style = "return-merge"
+        self.pat = ("param", 2)
+        self.delegate_ok = True
         b = self.body
+        # accumulator style: analyze_dir creates the map and hands `&mut map` to a private recursive walker that fills it
+        # (fn walk(dir, patterns, &mut map)); the walker is then the body whose anatomy is examined, with the map = its parameter
+        if not [s for s in S.call_sites(b) if s.path == "std::fs::read_dir"]:
+            acc0 = b.val_local(0)
+            cands = []
+            for s in S.call_sites(b):
+                g = crate.bodies.get(s.resolved) or crate.bodies.get(s.path)
+                if s.local and g is not None and g is not b and any(a == acc0 for a in s.args) and [x for x in S.call_sites(g) if x.path == "std::fs::read_dir"]:
+                    cands.append((s, g))
+            # thin wrapper: analyze_dir(dir, patterns) = walk(dir, &patterns), the private recursive walker returning the map itself
+            if acc0[0] == "call" and acc0[1] in crate.bodies and [x for x in S.call_sites(crate.bodies[acc0[1]]) if x.path == "std::fs::read_dir"]:
+                g = crate.bodies[acc0[1]]
+                j = [i for i, a in enumerate(acc0[2]) if a == ("param", 2)]
+                d = [i for i, a in enumerate(acc0[2]) if a == ("param", 1)]
+                calls_g = [x for x in S.call_sites(b) if x.path == g.path or x.resolved == g.path]
+                if len(j) == 1 and len(d) == 1 and len(calls_g) == 1 and S.block_guard(b, calls_g[0].bb) == [[]] and len(acc0[2]) == 2:
+                    self.body = g
+                    self.walker_path = g.path
+                    self.style = "return-merge"
+                    self.wrapped = True
+                    self.pat = ("param", j[0] + 1)
+                    b = g
+            if len(cands) == 1 and T.is_call(acc0, "new") and "HashMap" in acc0[1]:
+                s, g = cands[0]
+                k = [i for i, a in enumerate(s.args) if a == acc0]
+                j = [i for i, a in enumerate(s.args) if a == ("param", 2)]
+                d = [i for i, a in enumerate(s.args) if a == ("param", 1)]
+                others = [x for x in S.call_sites(b) if x.bb != s.bb and any(T.contains(a, acc0) for a in x.args)]
+                self.delegate_ok = len(k) == 1 and len(j) == 1 and len(d) == 1 and not others and S.block_guard(b, s.bb) == [[]] and not b.loops_of(s.bb)
+                if len(k) == 1 and len(j) == 1:
+                    self.style = "accumulator"
+                    self.delegate = s
+                    self.body = g
+                    self.path = path  # obligations stay keyed by the public entry point
+                    self.walker_path = g.path
+                    b = g
+                    self.acc_param = ("param", k[0] + 1)
+                    self.pat = ("param", j[0] + 1)
         self.sites = S.call_sites(b)
-        self.acc = b.val_local(0)
+        self.acc = b.val_local(0) if self.style == "return-merge" else self.acc_param
         self.read_dir = [s for s in self.sites if s.path == "std::fs::read_dir"]
         self.reads = [s for s in self.sites if s.path in ("std::fs::read_to_string", "std::fs::read", "std::fs::File::open")]
-        self.self_calls = [s for s in self.sites if s.resolved == path or s.path == path]
+        me = getattr(self, "walker_path", path)
+        self.self_calls = [s for s in self.sites if s.resolved == me or s.path == me]
         self.analyze = [s for s in self.sites if s.local and s.path.rsplit("::", 1)[-1].startswith("analyze_for_")]
         self.acc_sites = [s for s in self.sites if s.args and s.args[0] == self.acc and s.path != "std::collections::HashMap::<K, V>::new"]
 
